@@ -165,6 +165,13 @@ impl<CS: CLCiphersuite> PoKSignature<CL03<CS>> {
             println!("Signature PoK Failed!");
             return false;
         }
+        // one opening proof and one range proof per hidden attribute, no more and no less
+        if CLSPoK.proofs_commited_mi.len() != unrevealed_message_indexes.len()
+            || CLSPoK.range_proofs_commited_mi.len() != unrevealed_message_indexes.len()
+        {
+            println!("Number of per-attribute proofs different from the number of hidden attributes!");
+            return false;
+        }
         if CLSPoK.spok.Ce.value == CLSPoK.range_proof_e.E {
             //Verify RANGE PROOFS e
             let boolean_rproof_e = CLSPoK.range_proof_e.verify::<CS::HashAlg>(
@@ -421,6 +428,13 @@ impl<CS: CLCiphersuite> ZKPoK<CL03<CS>> {
 
         let min_x = Integer::from(0);
         let max_x = Integer::from(2).pow(CS::lm) - 1;
+        // one opening proof and one range proof per hidden attribute, no more and no less
+        if zkpok.proofs_commited_mi.len() != unrevealed_message_indexes.len()
+            || zkpok.range_proofs_mi.len() != unrevealed_message_indexes.len()
+        {
+            println!("Number of per-attribute proofs different from the number of hidden attributes!");
+            return false;
+        }
         let mut idx = 0usize;
 
         for i in unrevealed_message_indexes {
